@@ -36,7 +36,7 @@ def build():
             && (id_type is Ip ==> crate::vident::ip_canon(value@) == Some(id.value@)), //@C01.identifier_value_is_normalised
         r matches Ok(id) ==> challenge_of(crate::vident::lower(challenge@)) == Some(id.challenge)
             && supported(id_type).contains(id.challenge), //@C05.configured_challenge_is_supported
-""", rewrites=[("T-ITER", r"id_type\.supported_challenges\(\)\.contains\(&challenge\)", "crate::identifier::vec_contains(&id_type.supported_challenges(), &challenge)"),
+""", rewrites=[("T-ITER", r"(?P<v>id_type\.supported_challenges\(\)|\w+)\.contains\(&challenge\)", lambda m: f"crate::identifier::vec_contains(&{m.group('v')}, &challenge)"),
                ("T-FMT", r"format!\(\"challenge \{challenge\} cannot be used with identifier of type \{id_type\}\"\)", "crate::opaque_string()")])})
     u.module("acme_proto::structs", "use crate::*;\nuse crate::identifier::{self, IdentifierType};\nuse crate::acme_common::error::Error;")
     u.take(O, "NewOrder", "acme_proto::structs")
